@@ -81,7 +81,7 @@ func c02build() {
 
 func c02layout(env *core.Env) (matrix, random int) {
 	c02build()
-	return len(c02matrix), env.Pick(20000, 200000)
+	return len(c02matrix), env.Pick(60000, 600000)
 }
 
 func init() {
